@@ -76,6 +76,14 @@ func (p Parser) Parse(src io.Reader) (f File) {
 		}
 		index++
 
+		if n := aliasCycle(&doc, map[*yaml.Node]bool{}); n != nil {
+			f.Error = ParseError{
+				Err:  fmt.Errorf("anchor '%s' value contains itself", n.Value),
+				Line: n.Line,
+			}
+			return f
+		}
+
 		if p.isStrict {
 			g, f.Error = parseGroups(&doc, p.schema, 0, 0, cr.lines)
 			if f.Error.Err != nil {
@@ -143,7 +151,7 @@ func (p *Parser) parseNode(node, parent *yaml.Node, group *Group, offsetLine, of
 			//     rules: ...
 			// Then we need to get the offset of `groups` inside the FILE, not inside the YAML node value.
 			// Right now we read the line where it's in the file and count leading spaces.
-			if err := yaml.Unmarshal([]byte(node.Value), &n); err == nil {
+			if err := yaml.Unmarshal([]byte(node.Value), &n); err == nil && aliasCycle(&n, map[*yaml.Node]bool{}) == nil {
 				groups = append(groups,
 					p.parseNode(
 						&n,
@@ -505,6 +513,29 @@ func parseRule(node *yaml.Node, offsetLine, offsetColumn int, contentLines []str
 	}
 
 	return rule, true
+}
+
+// aliasCycle returns the first alias node that points at a node it is itself a part of.
+// yaml.v3 accepts such documents when decoding into a yaml.Node and walking them never ends.
+// visiting is true for nodes that are currently being walked and false for the ones already checked.
+func aliasCycle(node *yaml.Node, visiting map[*yaml.Node]bool) *yaml.Node {
+	if node.Alias != nil {
+		if visiting[node.Alias] {
+			return node
+		}
+		return aliasCycle(node.Alias, visiting)
+	}
+	if _, ok := visiting[node]; ok {
+		return nil
+	}
+	visiting[node] = true
+	for _, child := range node.Content {
+		if n := aliasCycle(child, visiting); n != nil {
+			return n
+		}
+	}
+	visiting[node] = false
+	return nil
 }
 
 func unpackNodes(node *yaml.Node) []*yaml.Node {
